@@ -10,7 +10,7 @@
 
 use super::c22::{abs_frame, abs_instr, real_instr, text_frame};
 use crate::runner::{Outcome, Summary, Violation};
-use crate::util::{self, arr};
+use crate::util::{self, arr, s};
 use crate::Ctx;
 use quil_rs::instruction::{DefaultHandler, Instruction, InstructionHandler};
 use quil_rs::quil::Quil;
@@ -53,10 +53,48 @@ fn canon(v: &Value) -> Value {
     }
 }
 
+/// The rules of the property, in Rust.  Used only to judge the replay of a recorded history (a rejection of the
+/// trace validation), where no TLC-computed expectation is at hand; the primary oracle is FrameMatch.tla.
+fn rule(i: &Value, frames: &[Value], uq: &[u64]) -> Value {
+    use std::collections::BTreeSet;
+    let qs = |f: &Value| -> BTreeSet<u64> { f["qubits"].as_array().unwrap().iter().map(|q| q.as_u64().unwrap()).collect() };
+    let list = |k: &str| -> BTreeSet<u64> { i[k].as_array().unwrap().iter().map(|q| q.as_u64().unwrap()).collect() };
+    let pick = |p: &dyn Fn(&Value) -> bool| -> Vec<Value> { frames.iter().filter(|f| p(f)).cloned().collect() };
+    let (used, blocked): (Vec<Value>, Vec<Value>) = match s(i, "k").as_str() {
+        "Pulse" | "Capture" | "RawCapture" => {
+            let own = &i["frame"];
+            let b = if i["blocking"].as_bool().unwrap() { pick(&|f| f != own && !qs(f).is_disjoint(&qs(own))) } else { vec![] };
+            (pick(&|f| f == own), b)
+        }
+        "SetFrequency" | "SetPhase" | "SetScale" | "ShiftFrequency" | "ShiftPhase" => (pick(&|f| f == &i["frame"]), vec![]),
+        "SwapPhases" => (pick(&|f| f == &i["frame_1"] || f == &i["frame_2"]), vec![]),
+        "Fence" => {
+            let q = list("qubits");
+            (if q.is_empty() { frames.to_vec() } else { pick(&|f| !qs(f).is_disjoint(&q)) }, vec![])
+        }
+        "Delay" => {
+            let q = list("qubits");
+            let names: Vec<&str> = i["frame_names"].as_array().unwrap().iter().map(|n| n.as_str().unwrap()).collect();
+            (pick(&|f| qs(f) == q && (names.is_empty() || names.contains(&f["name"].as_str().unwrap()))), vec![])
+        }
+        "Reset" => {
+            let target: BTreeSet<u64> = match i["qubit"].get("some") { Some(q) => [q.as_u64().unwrap()].into(), None => uq.iter().cloned().collect() };
+            (pick(&|f| qs(f) == target), pick(&|f| !qs(f).is_disjoint(&target) && qs(f) != target))
+        }
+        _ => return json!({"none": true}),
+    };
+    canon(&json!({"some": {"used": used, "blocked": blocked}}))
+}
+
 pub fn replay(_ctx: &Ctx, case: &Value) -> Outcome {
-    // a violation replay file from trace validation carries the recorded history
+    // a violation replay file from trace validation carries the recorded history: re-run it, judged by `rule`
     let case = match case.get("history") {
-        Some(h) => h.as_array().and_then(|a| a.iter().find(|e| e["ev"] == "match")).cloned().unwrap_or(Value::Null),
+        Some(h) => {
+            let mut e = h.as_array().and_then(|a| a.iter().find(|e| e["ev"] == "match")).cloned().unwrap_or(Value::Null);
+            let uq: Vec<u64> = arr(&e, "uq").iter().map(|q| q.as_u64().unwrap()).collect();
+            e["want"] = rule(&e["instr"], arr(&e, "frames"), &uq);
+            e
+        }
         None => case.clone(),
     };
     let frames = arr(&case, "frames").clone();
